@@ -303,6 +303,44 @@ static void scn_mutex(void) {
   snprintf(sch->obs, sizeof sch->obs, "mutex pattern %d: %d sections, entry order %s", mutex_pattern, entered, order_log);
 }
 
+/* a thread that ends inside its critical section: its section never ends, so nobody may enter afterwards (trylock keeps
+** failing; nobody calls lock, which would wait for ever) and the threads that keep trying never overlap */
+static volatile int abandoned;
+static var body_abandon(var args) {
+  my_id();
+  lock(mtx);
+  abandoned = 1;
+  olog('A');
+  done_flag[sch_me] = 1;
+  return NULL;              /* no unlock */
+}
+static var body_try_after_abandon(var args) {
+  int me = my_id();
+  for (int k = 0; k < 3; k++) {
+    if (trylock(mtx)) {
+      sch_fail("abandoned-mutex-acquired", "thread %d: trylock succeeded on a Mutex whose owner ended inside its critical section without unlocking", me);
+      critical();
+      unlock(mtx);
+    }
+    sch_yield();
+  }
+  done_flag[me] = 1;
+  return NULL;
+}
+static void scn_abandon(void) {
+  mtx = new_raw(Mutex);
+  var t0 = new_raw(Thread, $(Function, body_abandon));
+  call(t0); join(t0);
+  var th[SCH_MAXT];
+  var fobj = $(Function, body_try_after_abandon);
+  for (int i = 0; i < nthreads; i++) { th[i] = new_raw(Thread, fobj); call(th[i]); }
+  for (int i = 0; i < nthreads; i++) join(th[i]);
+  if (entered) sch_fail("abandoned-mutex-acquired", "%d critical sections were entered after the owner of the Mutex had ended inside its own", entered);
+  sch->digest = (uint64_t)entered;
+  snprintf(sch->obs, sizeof sch->obs, "abandoned mutex: %d sections entered afterwards", entered);
+  /* the Mutex is still locked by a thread that no longer exists: it is not destroyed */
+}
+
 /* join publishes: the joiner reads what the child wrote, immediately after join */
 static volatile int64_t shared_cell[4];
 static var body_writer(var args) {
@@ -424,6 +462,8 @@ int main(int argc, char** argv) {
   if (strncmp(scn, "mutex-", 6) == 0) {
     mutex_pattern = strcmp(scn, "mutex-lock") == 0 ? 0 : strcmp(scn, "mutex-trylock") == 0 ? 1 : 2;
     ex.scenario = scn_mutex; ex.site_mask = 0;
+  } else if (strcmp(scn, "abandon") == 0) {
+    ex.scenario = scn_abandon; ex.site_mask = 0;
   } else if (strcmp(scn, "join") == 0) {
     ex.scenario = scn_join; ex.site_mask = thr_sites;
   } else {
